@@ -1,458 +1,20 @@
 (* C04/Secure.v — "a 'secure' account additionally requires a matching
    registered mask", over histories of API operations and User plugin commands.
-   The code enforces it where a login is made (addAuth); SecInv says that every
-   login of a secure account is from a hostmask one of its masks matches. *)
+   Since the repair of C04.F25 the rule is applied where an account is
+   recognised (IrcUser.checkHostmask), so it holds in every state. *)
 From Coq Require Import List NArith ZArith Bool Lia.
 Import ListNotations.
 Require Import Base.Wire Base.PyStr C04.Model C04.Sound C04.Assoc C04.Prune C04.Shrink C04.Coherent C04.Cmd.
-Require gen.T04.
 Open Scope N_scope.
 
-Definition SecInv (u : user) : Prop :=
-  u_secure u = true -> forall e, In e (u_auth u) -> mask_match u (snd e) = true.
-Definition SecAll (us : list (N * user)) : Prop := forall k u, In (k, u) us -> SecInv u.
-
-Lemma SecAll_nil : SecAll [].
-Proof. intros k u []. Qed.
-
-(* same masks and flag, fewer logins *)
-Definition sub_user (u u' : user) : Prop :=
-  u_masks u' = u_masks u /\ u_secure u' = u_secure u /\ (forall e, In e (u_auth u') -> In e (u_auth u)).
-
-Lemma SecInv_sub u u' : SecInv u -> sub_user u u' -> SecInv u'.
+(* whoever is answered is recognised now, and if the account is secure one of
+   its registered masks matches the hostmask: for every state, clock, timeout *)
+Theorem secure_needs_mask_state t now s h id :
+  snd (getUserId t now s h) = Ok id ->
+  exists u, In (id, u) (s_users s) /\ recog t now u h = true /\ (u_secure u = true -> mask_match u h = true).
 Proof.
-  intros H [Hm [Hs Ha]] Hsec e Hin. unfold mask_match. rewrite Hm. apply H; [congruence|apply Ha; exact Hin].
-Qed.
-
-Lemma same_user_sub t now u u' : same_user t now u u' -> sub_user u u'.
-Proof. intros [_ [Hm [Hs [Ha _]]]]. split; [exact Hm|]. split; [exact Hs|exact Ha]. Qed.
-
-Lemma SecAll_same_db t now us us' : SecAll us -> same_db t now us us' -> SecAll us'.
-Proof.
-  intros HS H. induction H as [|[i u] [i' u'] a b [Hk Hsu] H IH]; [exact SecAll_nil|].
-  cbn [fst snd] in *. subst i'. intros k x [E|Hin].
-  - inversion E; subst. eapply SecInv_sub; [eapply HS; left; reflexivity|eapply same_user_sub; exact Hsu].
-  - apply (IH (fun k0 u0 H0 => HS k0 u0 (or_intror H0)) k x Hin).
-Qed.
-
-Lemma SecAll_uset us id u : SecAll us -> SecInv u -> SecAll (uset id u us).
-Proof.
-  intros HS Hu. induction us as [|[i v] us IH]; cbn [uset].
-  - intros k x [E|[]]. inversion E; subst. exact Hu.
-  - destruct (N.eqb i id).
-    + intros k x [E|Hin]; [inversion E; subst; exact Hu|apply (HS k x); right; exact Hin].
-    + intros k x [E|Hin]; [apply (HS k x); left; exact E|].
-      apply (IH (fun k0 u0 H0 => HS k0 u0 (or_intror H0)) k x Hin).
-Qed.
-
-Lemma SecAll_udel us id : SecAll us -> SecAll (udel id us).
-Proof. intros HS k x Hin. unfold udel in Hin. apply filter_In in Hin as [Hin _]. exact (HS k x Hin). Qed.
-
-Lemma SecAll_get us k u : SecAll us -> uget k us = Some u -> SecInv u.
-Proof. intros HS H. rewrite uget_nget in H. apply nget_In in H. exact (HS k u H). Qed.
-
-Lemma SecAll_store s id u : SecAll (s_users s) -> SecInv u -> SecAll (s_users (store s id u)).
-Proof. intros. unfold store. cbn [with_users s_users]. apply SecAll_uset; assumption. Qed.
-
-(* ---- the primitives ---- *)
-Lemma byname_users s name : s_users (fst (getUserIdByName s name)) = s_users s.
-Proof.
-  unfold getUserIdByName. destruct (dict_get (C03.Model.lower name) (s_ncache s)); [reflexivity|].
-  destruct (find_name (C03.Model.lower name) (s_users s)); reflexivity.
-Qed.
-
-Lemma invalidate_auth_users auth s s' : invalidate_auth s auth = Ok s' -> s_users s' = s_users s.
-Proof.
-  unfold invalidate_auth. revert s. induction auth as [|e auth IH]; intro s; cbn [fold_left].
-  - intro H. inversion H. reflexivity.
-  - cbn [bind]. destruct (invalidate_h s (snd e)) as [s1|x] eqn:E1.
-    + intro H. rewrite (IH _ H). exact (invalidate_h_users _ _ _ E1).
-    + intro H. exfalso. clear -H. induction auth as [|a auth IH]; cbn [fold_left bind] in H; [discriminate|exact (IH H)].
-Qed.
-
-Lemma lookup_SecAll t now s h s' r a :
-  SecAll (s_users s) -> lookup t now s h = (s', r, a) -> a = false -> SecAll (s_users s').
-Proof. intros HS E Ea. subst a. eapply SecAll_same_db; [exact HS|eapply lookup_same; exact E]. Qed.
-
-Lemma SecInv_checkHostmask istr t now u h ua : SecInv u -> SecInv (fst (checkHostmask istr t now u h ua)).
-Proof. intro H. eapply SecInv_sub; [exact H|eapply same_user_sub; apply checkHostmask_same]. Qed.
-
-(* users.setUser never breaks it when the record it is given is fine *)
-Lemma setUser_SecAll t now s id u :
-  SecAll (s_users s) -> SecInv u -> SecAll (s_users (fst (setUser t now s id u))).
-Proof.
-  intros HS Hu. unfold setUser.
-  set (us0 := match uget id (s_users s) with Some _ => uset id u (s_users s) | None => s_users s end).
-  assert (HS0 : SecAll us0) by (unfold us0; destruct (uget id (s_users s)); [apply SecAll_uset; assumption|exact HS]).
-  assert (Hroll : forall us1, SecAll us1 -> SecAll (rollback (uget id (s_users s)) id us1)).
-  { intros us1 H1. unfold rollback. destruct (uget id (s_users s)) as [u0|] eqn:E0; [|exact H1].
-    apply SecAll_uset; [exact H1|]. exact (SecAll_get _ _ _ HS E0). }
-  set (s00 := St us0 (s_hcache s) (s_hrev s) (s_ncache s) (s_nrev s) (N.max (s_next s) id)).
-  destruct (invalidate_auth s00 (u_auth u)) as [s0|e] eqn:Ei; [|exact HS0].
-  pose proof (invalidate_auth_users _ _ _ Ei) as Hu0. change (s_users s00) with us0 in Hu0.
-  pose proof (byname_users s0 (u_name u)) as Hu1.
-  destruct (getUserIdByName s0 (u_name u)) as [s1 r]. cbn [fst] in Hu1. rewrite Hu0 in Hu1.
-  destruct (match r with Ok other => negb (N.eqb other id) | Raise _ => false end).
-  { cbn [fst with_users s_users]. apply Hroll. rewrite Hu1. exact HS0. }
-  pose proof (overlap_all_same t now id (u_masks u) (s_users s1)) as Hov.
-  destruct (overlap_all t now id (u_masks u) (s_users s1)) as [us1 dup]. cbn [fst] in Hov. rewrite Hu1 in Hov.
-  assert (HS1 : SecAll us1) by (eapply SecAll_same_db; eassumption).
-  destruct dup; [cbn [fst with_users s_users]; apply Hroll; exact HS1|].
-  destruct (invalidate_id (with_users s1 us1) id) as [s3|e] eqn:E3; cbn [fst with_users s_users].
-  - rewrite (invalidate_id_users _ _ _ E3). cbn [with_users s_users]. apply SecAll_uset; assumption.
-  - exact HS1.
-Qed.
-
-(* after a refusal the account that was edited in place is still the edited record *)
-Lemma overlap_one_self t now self hm us : nget self (fst (overlap_one t now self hm us)) = nget self us.
-Proof.
-  induction us as [|[i u] us IH]; [reflexivity|]. cbn [overlap_one]. destruct (N.eqb i self) eqn:E.
-  - destruct (overlap_one t now self hm us) as [r' b]. cbn [fst nget]. rewrite E. reflexivity.
-  - destruct (checkHostmask true t now u hm true) as [u' x].
-    destruct (truthy x); [cbn [fst nget]; rewrite E; reflexivity|].
-    destruct (existsb (fun other => hmatch hm other) (u_masks u')); [cbn [fst nget]; rewrite E; reflexivity|].
-    destruct (overlap_one t now self hm us) as [r' b]. cbn [fst nget] in *. rewrite E. exact IH.
-Qed.
-
-Lemma overlap_all_self t now self hms us : nget self (fst (overlap_all t now self hms us)) = nget self us.
-Proof.
-  revert us. induction hms as [|hm hms IH]; intro us; [reflexivity|]. cbn [overlap_all].
-  pose proof (overlap_one_self t now self hm us) as H1.
-  destruct (overlap_one t now self hm us) as [us' b]. cbn [fst] in H1.
-  destruct b; [exact H1|]. rewrite IH. exact H1.
-Qed.
-
-Lemma setUser_raise_record t now s id u e :
-  nget id (s_users s) = Some u -> snd (setUser t now s id u) = Raise e ->
-  nget id (s_users (fst (setUser t now s id u))) = Some u.
-Proof.
-  intros Hu. unfold setUser. rewrite !uget_nget, Hu, uset_nset, (nset_noop _ _ _ Hu).
-  set (s00 := St (s_users s) (s_hcache s) (s_hrev s) (s_ncache s) (s_nrev s) (N.max (s_next s) id)).
-  destruct (invalidate_auth s00 (u_auth u)) as [s0|x] eqn:Ei; [|intros _; exact Hu].
-  pose proof (invalidate_auth_users _ _ _ Ei) as Hu0. change (s_users s00) with (s_users s) in Hu0.
-  pose proof (byname_users s0 (u_name u)) as Hu1.
-  destruct (getUserIdByName s0 (u_name u)) as [s1 r]. cbn [fst] in Hu1. rewrite Hu0 in Hu1.
-  destruct (match r with Ok other => negb (N.eqb other id) | Raise _ => false end).
-  { intros _. cbn [fst with_users s_users]. unfold rollback. rewrite uset_nset. apply nget_nset_same. }
-  pose proof (overlap_all_self t now id (u_masks u) (s_users s1)) as Hov.
-  destruct (overlap_all t now id (u_masks u) (s_users s1)) as [us1 dup]. cbn [fst] in Hov. rewrite Hu1, Hu in Hov.
-  destruct dup; [intros _; cbn [fst with_users s_users]; unfold rollback; rewrite uset_nset; apply nget_nset_same|].
-  destruct (invalidate_id (with_users s1 us1) id) as [s3|x] eqn:E3; cbn [fst snd with_users s_users]; [discriminate|].
-  intros _. exact Hov.
-Qed.
-
-Lemma mask_match_more u ms h :
-  (forall p, In p (u_masks u) -> In p ms) -> mask_match u h = true -> mask_match (set_masks u ms) h = true.
-Proof.
-  unfold mask_match. cbn [set_masks u_masks]. intros Hsub H. apply existsb_exists in H as [p [Hin Hp]].
-  apply existsb_exists. exists p. auto.
-Qed.
-
-Lemma SecInv_add_mask u mask : SecInv u -> SecInv (set_masks u (iset_add mask (u_masks u))).
-Proof.
-  intros H Hsec e Hin. cbn [set_masks u_secure u_auth] in *. apply mask_match_more.
-  - intros p Hp. unfold iset_add. destruct (existsb (ieq mask) (u_masks u)); [exact Hp|apply in_or_app; left; exact Hp].
-  - apply H; assumption.
-Qed.
-
-Lemma SecInv_addAuth now u h u' : SecInv u -> addAuth now u h = Ok u' -> SecInv u'.
-Proof.
-  intros H Ha. unfold addAuth in Ha.
-  destruct (truthy (first_match (u_masks u) h) || negb (u_secure u)) eqn:Eg; [|discriminate].
-  inversion Ha; subst u'. clear Ha. intros Hsec e Hin. cbn [u_secure u_auth] in *. unfold mask_match. cbn [u_masks].
-  rewrite Hsec in Eg. cbn [negb] in Eg. rewrite orb_false_r in Eg. rewrite first_match_truthy in Eg.
-  unfold dedupe_auth in Hin. apply in_rev in Hin.
-  assert (Hsub : forall seen l x, In x (uniq_rev seen l) -> In x l).
-  { clear. intros seen l. revert seen. induction l as [|[w m] l IH]; intros seen x; [intros []|]. cbn [uniq_rev].
-    destruct (existsb (seq_eqb m) seen); [intro H; right; exact (IH _ _ H)|].
-    intros [E|H]; [left; exact E|right; exact (IH _ _ H)]. }
-  apply Hsub in Hin. apply in_rev in Hin. apply in_app_iff in Hin as [Hin|[E|[]]].
-  - apply (H Hsec e Hin).
-  - subst e. exact Eg.
-Qed.
-
-(* ---- API operations ---- *)
-Lemma getUserId_SecAll t now s h :
-  SecAll (s_users s) -> ambiguous t now s h = false -> SecAll (s_users (fst (getUserId t now s h))).
-Proof.
-  intros HS Ha. eapply SecAll_same_db; [exact HS|]. apply getUserId_same_db. intros e _.
-  rewrite <- recognisers_spec. unfold ambiguous in Ha.
-  destruct (length (recognisers t now s h)) as [|[|n]]; [lia|lia|]. cbn in Ha. discriminate.
-Qed.
-
-Lemma delUser_SecAll s id : SecAll (s_users s) -> SecAll (s_users (fst (delUser s id))).
-Proof.
-  intro HS. unfold delUser. destruct (uget id (s_users s)); [|exact HS].
-  destruct (invalidate_id (with_users s (udel id (s_users s))) id) as [s1|e] eqn:E; cbn [fst].
-  - rewrite (invalidate_id_users _ _ _ E). cbn [with_users s_users]. apply SecAll_udel. exact HS.
-  - cbn [with_users s_users]. apply SecAll_udel. exact HS.
-Qed.
-
-Lemma SecInv_empty name ms : SecInv (User name ms [] false).
-Proof. intros H. discriminate. Qed.
-
-Lemma SecInv_noauth u : SecInv (set_auth u []).
-Proof. intros _ e []. Qed.
-
-Lemma newUser_SecAll s : SecAll (s_users s) -> SecAll (s_users (fst (newUser s))).
-Proof. intro HS. unfold newUser. cbn [fst s_users]. apply SecAll_uset; [exact HS|apply SecInv_empty]. Qed.
-
-Lemma opClearAuth_shape s uid s2 x :
-  opClearAuth s uid = (s2, Ok x) ->
-  exists u, nget uid (s_users s) = Some u /\ s_users s2 = uset uid (set_auth u []) (s_users s).
-Proof.
-  unfold opClearAuth. rewrite uget_nget. destruct (nget uid (s_users s)) as [u|]; [|intro E; inversion E].
-  destruct (invalidate_auth s (u_auth u)) as [s1|e] eqn:Ei; intro E; inversion E.
-  exists u. split; [reflexivity|]. cbn [with_users s_users]. rewrite (invalidate_auth_users _ _ _ Ei). reflexivity.
-Qed.
-
-Lemma opClearAuth_SecAll s uid : SecAll (s_users s) -> SecAll (s_users (fst (opClearAuth s uid))).
-Proof.
-  intro HS. destruct (opClearAuth s uid) as [s2 r] eqn:E. destruct r as [x|e].
-  - destruct (opClearAuth_shape _ _ _ _ E) as [u [_ Hs2]]. cbn [fst]. rewrite Hs2. apply SecAll_uset; [exact HS|apply SecInv_noauth].
-  - unfold opClearAuth in E. destruct (uget uid (s_users s)) as [u|]; [|inversion E; subst; exact HS].
-    destruct (invalidate_auth s (u_auth u)); inversion E. subst. exact HS.
-Qed.
-
-Lemma opIdentify_SecAll t now s id h : SecAll (s_users s) -> SecAll (s_users (fst (opIdentify t now s id h))).
-Proof.
-  intro HS. unfold opIdentify. destruct (uget id (s_users s)) as [u|] eqn:Eu; [|exact HS].
-  destruct (addAuth now u h) as [u'|e] eqn:Ea; [|exact HS].
-  assert (Hu' : SecInv u') by (eapply SecInv_addAuth; [exact (SecAll_get _ _ _ HS Eu)|exact Ea]).
-  apply setUser_SecAll; [cbn [with_users s_users]; apply SecAll_uset; assumption|exact Hu'].
-Qed.
-
-(* ---- commands ---- *)
-Lemma resolve_users s name s' tgt :
-  resolve s name = (s', tgt) ->
-  s_users s' = s_users s /\ (forall uid u, tgt = Some (uid, u) -> nget uid (s_users s') = Some u).
-Proof.
-  unfold resolve. pose proof (byname_users s name) as Hu.
-  destruct (getUserIdByName s name) as [s1 r]. cbn [fst] in Hu.
-  destruct r as [id|e]; intro E; inversion E; subst; (split; [exact Hu|]).
-  - intros uid u Ht. rewrite uget_nget in Ht. destruct (nget id (s_users s')) eqn:En; inversion Ht; subst. exact En.
-  - intros uid u Ht. discriminate.
-Qed.
-
-Lemma authorised_SecAll t now o s uid u P s' ok :
-  SecAll (s_users s) -> nget uid (s_users s) = Some u -> authorised t now o s uid u P = (s', ok) -> SecAll (s_users s').
-Proof.
-  intros HS Hu. unfold authorised. destruct (o_pw o); [intro E; inversion E; subst; exact HS|].
-  pose proof (SecInv_checkHostmask false t now u P true) as Hc.
-  destruct (checkHostmask false t now u P true) as [u1 x]. cbn [fst] in Hc.
-  intro E. inversion E; subst. apply SecAll_store; [exact HS|]. apply Hc. apply (HS uid). apply nget_In. exact Hu.
-Qed.
-
-Lemma store_record s uid u : nget uid (s_users (store s uid u)) = Some u.
-Proof. unfold store. cbn [with_users s_users]. rewrite uset_nset. apply nget_nset_same. Qed.
-
-Lemma add_prepare_SecAll t now o s P name mask :
-  SecAll (s_users s) ->
-  match add_prepare t now o s P name mask with
-  | PErr s' amb => amb = false -> SecAll (s_users s')
-  | PGo s4 amb uid u1 => amb = false -> SecAll (s_users s4) /\ nget uid (s_users s4) = Some u1
-  end.
-Proof.
-  intro HS. unfold add_prepare.
-  destruct (lookup t now s P) as [[s1 r1] a0] eqn:E1.
-  destruct (resolve s1 name) as [s2 tgt] eqn:E2. destruct (resolve_users _ _ _ _ E2) as [Hu2 Ht].
-  assert (H2 : a0 = false -> SecAll (s_users s2)) by (intro Ea; rewrite Hu2; eapply lookup_SecAll; eassumption).
-  destruct tgt as [[uid u0]|]; [|exact H2]. destruct (negb (o_shape o)); [exact H2|].
-  destruct (lookup t now s2 mask) as [[s3 r3] a3] eqn:E3.
-  assert (H3 : a0 || a3 = false -> SecAll (s_users s3)).
-  { intro Ea. apply orb_false_iff in Ea as [Ea0 Ea3]. eapply lookup_SecAll; [apply H2; exact Ea0|exact E3|exact Ea3]. }
-  assert (Hcont :
-    match (match uget uid (s_users s3) with
-           | None => PErr s3 (a0 || a3)
-           | Some u =>
-             let '(s4, ok) := authorised t now o s3 uid u P in
-             if negb ok then PErr s4 (a0 || a3) else
-             if negb (o_long o) then PErr s4 (a0 || a3) else
-             match uget uid (s_users s4) with
-             | None => PErr s4 (a0 || a3)
-             | Some u1 => PGo s4 (a0 || a3) uid u1
-             end
-           end) with
-    | PErr s' amb => amb = false -> SecAll (s_users s')
-    | PGo s4 amb uid u1 => amb = false -> SecAll (s_users s4) /\ nget uid (s_users s4) = Some u1
-    end).
-  { rewrite uget_nget. destruct (nget uid (s_users s3)) as [u|] eqn:Eu; [|exact H3].
-    destruct (authorised t now o s3 uid u P) as [s4 ok] eqn:E4.
-    assert (H4 : a0 || a3 = false -> SecAll (s_users s4)).
-    { intro Ea. eapply authorised_SecAll; [apply H3; exact Ea|exact Eu|exact E4]. }
-    destruct (negb ok); [exact H4|]. destruct (negb (o_long o)); [exact H4|].
-    rewrite uget_nget. destruct (nget uid (s_users s4)) as [u1|] eqn:Eu1; [|exact H4].
-    intro Ea. split; [apply H4; exact Ea|exact Eu1]. }
-  destruct r3 as [other|e].
-  - destruct (N.eqb other uid); [exact Hcont|exact H3].
-  - destruct e; try exact H3. exact Hcont.
-Qed.
-
-Lemma add_commit_SecAll t now s4 uid u1 mask :
-  SecAll (s_users s4) -> nget uid (s_users s4) = Some u1 ->
-  SecAll (s_users (fst (fst (add_commit t now s4 uid u1 mask)))).
-Proof.
-  intros HS Hu. unfold add_commit.
-  assert (H1 : SecInv u1) by (apply (HS uid); apply nget_In; exact Hu).
-  set (u2 := set_masks u1 (iset_add mask (u_masks u1))).
-  assert (H2 : SecInv u2) by (apply SecInv_add_mask; exact H1).
-  pose proof (setUser_SecAll t now (store s4 uid u2) uid u2 (SecAll_store _ _ _ HS H2) H2) as H6.
-  pose proof (setUser_raise_record t now (store s4 uid u2) uid u2) as Hrec.
-  destruct (setUser t now (store s4 uid u2) uid u2) as [s6 r6]. cbn [fst snd] in *.
-  destruct r6 as [x|e]; [exact H6|].
-  specialize (Hrec e (store_record _ _ _) eq_refl).
-  destruct (first_handler gen.T04.HM_ADD_HANDLERS e) as [[|]|]; try exact H6.
-  rewrite T04_add_guarded. cbn [andb].
-  destruct (existsb (ieq mask) (u_masks u1)) eqn:Ehad; [exact H6|].
-  rewrite uget_nget, Hrec.
-  assert (Erm : iset_remove mask (u_masks u2) = Ok (u_masks u1)).
-  { unfold u2. cbn [set_masks u_masks]. apply iset_add_remove. exact Ehad. }
-  rewrite Erm. cbn [fst].
-  assert (Eu : set_masks u2 (u_masks u1) = u1) by (destruct u1; reflexivity).
-  rewrite Eu. apply SecAll_store; assumption.
-Qed.
-
-Lemma cmd_add_SecAll t now o s P name mask :
-  SecAll (s_users s) ->
-  let out := cmd_add t now o s P name mask in r_amb out = false -> SecAll (s_users (r_st out)).
-Proof.
-  intro HS. unfold cmd_add. pose proof (add_prepare_SecAll t now o s P name mask HS) as Hp.
-  destruct (add_prepare t now o s P name mask) as [s1 amb|s4 amb uid u1]; [exact Hp|].
-  pose proof (add_commit_SecAll t now s4 uid u1 mask) as Hc.
-  destruct (add_commit t now s4 uid u1 mask) as [[s6 ok] raised]. cbn [fst r_amb r_st] in *.
-  intro Ea. destruct (Hp Ea) as [H4 Hu]. exact (Hc H4 Hu).
-Qed.
-
-Lemma cmd_identify_SecAll t now o s P name :
-  SecAll (s_users s) ->
-  let out := cmd_identify t now o s P name in r_amb out = false -> SecAll (s_users (r_st out)).
-Proof.
-  intro HS. unfold cmd_identify.
-  destruct (lookup t now s P) as [[s1 r1] a0] eqn:E1.
-  destruct (resolve s1 name) as [s2 tgt] eqn:E2. destruct (resolve_users _ _ _ _ E2) as [Hu2 Ht].
-  assert (H2 : a0 = false -> SecAll (s_users s2)) by (intro Ea; rewrite Hu2; eapply lookup_SecAll; eassumption).
-  destruct tgt as [[uid u0]|]; [|exact H2]. specialize (Ht uid u0 eq_refl).
-  destruct (o_pw o); [|exact H2].
-  destruct (addAuth now u0 P) as [u'|e] eqn:Ea0; [|exact H2].
-  cbv zeta.
-  assert (H0 : a0 = false -> SecInv u0) by (intro Ea; apply (H2 Ea uid); apply nget_In; exact Ht).
-  assert (H' : a0 = false -> SecInv u') by (intro Ea; eapply SecInv_addAuth; [apply H0; exact Ea|exact Ea0]).
-  assert (H3 : a0 = false -> SecAll (s_users (fst (setUser t now (store s2 uid u') uid u')))).
-  { intro Ea. apply setUser_SecAll; [apply SecAll_store; [apply H2; exact Ea|apply H'; exact Ea]|apply H'; exact Ea]. }
-  pose proof (setUser_raise_record t now (store s2 uid u') uid u') as Hrec.
-  destruct (setUser t now (store s2 uid u') uid u') as [s3 r3]. cbn [fst snd] in *.
-  destruct r3 as [x|e]; [exact H3|].
-  specialize (Hrec e (store_record _ _ _) eq_refl). rewrite uget_nget, Hrec.
-  destruct (first_handler gen.T04.IDENTIFY_HANDLERS e) as [[|]|]; try exact H3.
-  cbn [r_st r_amb]. intro Ea.
-  assert (Eu : set_auth u' (u_auth u0) = u0) by (rewrite (addAuth_shape _ _ _ _ Ea0); destruct u0; reflexivity).
-  rewrite Eu. apply SecAll_store; [apply H3; exact Ea|apply H0; exact Ea].
-Qed.
-
-Lemma cmd_unidentify_SecAll t now s P :
-  SecAll (s_users s) ->
-  let out := cmd_unidentify t now s P in r_amb out = false -> SecAll (s_users (r_st out)).
-Proof.
-  intro HS. unfold cmd_unidentify.
-  destruct (lookup t now s P) as [[s1 r1] a0] eqn:E1.
-  assert (H1 : a0 = false -> SecAll (s_users s1)) by (intro Ea; eapply lookup_SecAll; eassumption).
-  destruct r1 as [uid|e]; [|exact H1].
-  pose proof (opClearAuth_SecAll s1 uid) as Hc.
-  destruct (opClearAuth s1 uid) as [s2 r2] eqn:E2. cbn [fst] in Hc.
-  destruct r2 as [x|e]; [|intro Ea; exact (Hc (H1 Ea))].
-  destruct (opClearAuth_shape _ _ _ _ E2) as [u1 [Hu1 Hs2]].
-  assert (Hcl : nget uid (s_users s2) = Some (set_auth u1 [])) by (rewrite Hs2, uset_nset; apply nget_nset_same).
-  rewrite uget_nget, Hcl. cbv zeta.
-  assert (H3 : a0 = false -> SecAll (s_users (fst (setUser t now s2 uid (set_auth u1 []))))).
-  { intro Ea. apply setUser_SecAll; [exact (Hc (H1 Ea))|apply SecInv_noauth]. }
-  pose proof (setUser_raise_record t now s2 uid (set_auth u1 [])) as Hrec.
-  destruct (setUser t now s2 uid (set_auth u1 [])) as [s3 r3]. cbn [fst snd] in *.
-  destruct r3 as [y|e]; [exact H3|].
-  specialize (Hrec e Hcl eq_refl). rewrite !uget_nget, Hrec, Hu1.
-  destruct (first_handler gen.T04.UNIDENTIFY_HANDLERS e) as [[|]|]; try exact H3.
-  cbn [r_st r_amb]. intro Ea.
-  assert (Eu : set_auth (set_auth u1 []) (u_auth u1) = u1) by (destruct u1; reflexivity).
-  rewrite Eu. apply SecAll_store; [apply H3; exact Ea|]. apply (H1 Ea uid). apply nget_In. exact Hu1.
-Qed.
-
-Lemma SecInv_set_name u n : SecInv u -> SecInv (set_name u n).
-Proof. intro H. exact H. Qed.
-
-Lemma cmd_changename_SecAll t now o s P name newname :
-  SecAll (s_users s) ->
-  let out := cmd_changename t now o s P name newname in r_amb out = false -> SecAll (s_users (r_st out)).
-Proof.
-  intro HS. unfold cmd_changename.
-  destruct (lookup t now s P) as [[s1 r1] a0] eqn:E1.
-  destruct (resolve s1 name) as [s2 tgt] eqn:E2. destruct (resolve_users _ _ _ _ E2) as [Hu2 Ht].
-  assert (H2 : a0 = false -> SecAll (s_users s2)) by (intro Ea; rewrite Hu2; eapply lookup_SecAll; eassumption).
-  destruct tgt as [[uid u0]|]; [|exact H2]. specialize (Ht uid u0 eq_refl).
-  pose proof (byname_users s2 newname) as Hu3.
-  destruct (getUserIdByName s2 newname) as [s3 r3]. cbn [fst] in Hu3.
-  assert (H3 : a0 = false -> SecAll (s_users s3)) by (intro Ea; rewrite Hu3; apply H2; exact Ea).
-  destruct r3 as [x|e]; [exact H3|]. destruct (negb (o_name o)); [exact H3|].
-  pose proof (SecInv_checkHostmask false t now u0 P true) as Hc.
-  destruct (checkHostmask false t now u0 P true) as [u1 x]. cbn [fst] in Hc. cbv zeta.
-  assert (H4 : a0 = false -> SecInv u1 /\ SecAll (s_users (store s3 uid u1))).
-  { intro Ea. assert (H1 : SecInv u1) by (apply Hc; apply (H2 Ea uid); apply nget_In; exact Ht).
-    split; [exact H1|apply SecAll_store; [apply H3; exact Ea|exact H1]]. }
-  destruct (truthy x || o_pw o); [|intro Ea; apply (H4 Ea)].
-  assert (H5 : a0 = false -> SecAll (s_users (fst (setUser t now (store (store s3 uid u1) uid (set_name u1 newname)) uid (set_name u1 newname))))).
-  { intro Ea. destruct (H4 Ea) as [H1 HS4].
-    apply setUser_SecAll; [apply SecAll_store; [exact HS4|apply SecInv_set_name; exact H1]|apply SecInv_set_name; exact H1]. }
-  destruct (setUser t now (store (store s3 uid u1) uid (set_name u1 newname)) uid (set_name u1 newname)) as [s5 r5]. cbn [fst] in H5.
-  destruct r5 as [y|e5]; [exact H5|].
-  destruct (first_handler gen.T04.CHANGENAME_HANDLERS e5) as [[|]|]; try exact H5.
-  destruct (uget uid (s_users s5)) as [u5|] eqn:Eu5; [|exact H5].
-  assert (H6 : a0 = false -> SecAll (s_users (store s5 uid (set_name u5 (u_name u1))))).
-  { intro Ea. apply SecAll_store; [apply H5; exact Ea|]. apply SecInv_set_name. exact (SecAll_get _ _ _ (H5 Ea) Eu5). }
-  destruct (invalidate_id (store s5 uid (set_name u5 (u_name u1))) uid) as [s7|e7] eqn:E7; cbn [r_st r_amb].
-  - rewrite (invalidate_id_users _ _ _ E7). exact H6.
-  - exact H6.
-Qed.
-
-Lemma cmd_register_SecAll t now o s P name :
-  SecAll (s_users s) ->
-  let out := cmd_register t now o s P name in r_amb out = false -> SecAll (s_users (r_st out)).
-Proof.
-  intro HS. unfold cmd_register.
-  destruct (lookup t now s P) as [[s1 r1] a0] eqn:E1.
-  pose proof (byname_users s1 name) as Hu2.
-  destruct (getUserIdByName s1 name) as [s2 rn]. cbn [fst] in Hu2.
-  assert (H2 : a0 = false -> SecAll (s_users s2)) by (intro Ea; rewrite Hu2; eapply lookup_SecAll; eassumption).
-  destruct rn as [x|e]; [exact H2|]. destruct (negb (o_name o)); [exact H2|].
-  assert (Hgo : forall addmask,
-    let out := (let '(s3, id) := newUser s2 in
-                let undo (s' : st) (e : exn) :=
-                  match first_handler gen.T04.REGISTER_HANDLERS e with
-                  | Some true => Out (fst (delUser s' id)) false a0 true
-                  | _ => Out s' false a0 true
-                  end in
-                if addmask && negb (o_long o) then undo (store s3 id (User name [] [] false)) ValueError
-                else let u := User name (if addmask then [P] else []) [] false in
-                     let '(s4, r4) := setUser t now (store s3 id u) id u in
-                     match r4 with Ok _ => Out s4 true a0 false | Raise e => undo s4 e end) in
-    r_amb out = false -> SecAll (s_users (r_st out))).
-  { intro addmask. pose proof (newUser_SecAll s2) as Hn. destruct (newUser s2) as [s3 id]. cbn [fst] in Hn. cbv zeta.
-    assert (Hundo : forall s' e, SecAll (s_users s') ->
-              SecAll (s_users (r_st (match first_handler gen.T04.REGISTER_HANDLERS e with
-                                     | Some true => Out (fst (delUser s' id)) false a0 true
-                                     | _ => Out s' false a0 true end)))).
-    { intros s' e0 H'. destruct (first_handler gen.T04.REGISTER_HANDLERS e0) as [[|]|]; cbn [r_st]; try exact H'.
-      apply delUser_SecAll. exact H'. }
-    destruct (addmask && negb (o_long o)).
-    - intro Ea. apply Hundo. apply SecAll_store; [apply Hn; apply H2|apply SecInv_empty].
-      destruct (first_handler gen.T04.REGISTER_HANDLERS ValueError) as [[|]|]; exact Ea.
-    - set (u := User name (if addmask then [P] else []) [] false).
-      pose proof (setUser_SecAll t now (store s3 id u) id u) as H4.
-      destruct (setUser t now (store s3 id u) id u) as [s4 r4]. cbn [fst] in H4.
-      assert (Hcore : a0 = false -> SecAll (s_users s4)).
-      { intro Ea. apply H4; [apply SecAll_store; [apply Hn; apply H2; exact Ea|apply SecInv_empty]|apply SecInv_empty]. }
-      destruct r4 as [y|e4]; [exact Hcore|].
-      intro Ea. apply Hundo. apply Hcore. destruct (first_handler gen.T04.REGISTER_HANDLERS e4) as [[|]|]; exact Ea. }
-  destruct r1 as [x|e1].
-  - destruct (o_owner o); [apply Hgo|exact H2].
-  - destruct e1; try exact H2. apply Hgo.
+  intro H. destruct (answer_recognised t now s h id H) as [u [Hin Hr]]. exists u. split; [exact Hin|]. split; [exact Hr|].
+  intro Hsec. unfold recog in Hr. rewrite Hsec, andb_false_r in Hr. exact Hr.
 Qed.
 
 (* ---- histories of API operations and commands ---- *)
@@ -464,130 +26,27 @@ Definition hstep (t now : Z) (s : st) (h : hop) : st :=
   | HCmd orc P c => r_st (run_cmd t now orc s P c)
   end.
 
-(* the domain: no lookup runs the Multiple-matches branch (it strips masks);
-   users.setUser is given a record that respects the rule; and the two commands
-   that can turn a login into one without a matching mask - hostmask remove and
-   user set secure - did not do so (finding F25: they do not check) *)
-Definition hop_ok (t now : Z) (s : st) (h : hop) : Prop :=
-  match h with
-  | HApi (OLookup x) => ambiguous t now s x = false
-  | HApi (OSet id u) => SecInv u
-  | HApi _ => True
-  | HCmd orc P c =>
-      r_amb (run_cmd t now orc s P c) = false /\
-      match c with
-      | CRemove _ _ | CSecure _ => SecAll (s_users (r_st (run_cmd t now orc s P c)))
-      | _ => True
-      end
-  end.
-
 Fixpoint hrun (t : Z) (s : st) (ops : list (Z * hop)) : st :=
   match ops with
   | [] => s
   | (now, h) :: r => hrun t (hstep t now s h) r
   end.
 
-Fixpoint hhist_ok (t : Z) (s : st) (ops : list (Z * hop)) : Prop :=
-  match ops with
-  | [] => True
-  | (now, h) :: r => hop_ok t now s h /\ hhist_ok t (hstep t now s h) r
-  end.
-
-Lemma cmd_body_SecAll t now o s P c :
-  SecAll (s_users s) ->
-  match c with CRemove _ _ | CSecure _ => False | _ => True end ->
-  r_amb (cmd_body t now o s P c) = false -> SecAll (s_users (r_st (cmd_body t now o s P c))).
-Proof.
-  intros HS Hc. destruct c as [name mask|name mask|name| |name newname|name|value]; cbn [cmd_body]; try destruct Hc.
-  - apply cmd_add_SecAll; exact HS.
-  - apply cmd_identify_SecAll; exact HS.
-  - apply cmd_unidentify_SecAll; exact HS.
-  - apply cmd_changename_SecAll; exact HS.
-  - apply cmd_register_SecAll; exact HS.
-Qed.
-
-Lemma hstep_SecAll t now s h : SecAll (s_users s) -> hop_ok t now s h -> SecAll (s_users (hstep t now s h)).
-Proof.
-  intros HS Hok. destruct h as [o|orc P c]; cbn [hstep].
-  - destruct o as [x|id u|id| |id x|id]; cbn [step hop_ok] in *.
-    + apply getUserId_SecAll; assumption.
-    + pose proof (setUser_SecAll t now s id u HS Hok) as H. destruct (setUser t now s id u). exact H.
-    + pose proof (delUser_SecAll s id HS) as H. destruct (delUser s id). exact H.
-    + pose proof (newUser_SecAll s HS) as H. destruct (newUser s). exact H.
-    + pose proof (opIdentify_SecAll t now s id x HS) as H. destruct (opIdentify t now s id x). exact H.
-    + pose proof (opClearAuth_SecAll s id HS) as H. destruct (opClearAuth s id). exact H.
-  - cbn [hop_ok] in Hok. destruct Hok as [Hamb Hres].
-    assert (Hgen : match c with CRemove _ _ | CSecure _ => False | _ => True end ->
-                   SecAll (s_users (r_st (run_cmd t now orc s P c)))).
-    { intro Hc. revert Hamb. unfold run_cmd.
-      pose proof (cmd_body_SecAll t now orc s P c HS Hc) as Hb.
-      destruct (lookup t now (r_st (cmd_body t now orc s P c)) P) as [[s' r'] a'] eqn:EL. cbn [r_amb r_st].
-      intro Ea. apply orb_false_iff in Ea as [Ea1 Ea2]. eapply lookup_SecAll; [apply Hb; exact Ea1|exact EL|exact Ea2]. }
-    destruct c; try (apply Hgen; exact Logic.I); exact Hres.
-Qed.
-
-Lemma hrun_SecAll t s ops : SecAll (s_users s) -> hhist_ok t s ops -> SecAll (s_users (hrun t s ops)).
-Proof.
-  revert s. induction ops as [|[now h] ops IH]; intros s HS Hok; [exact HS|].
-  cbn [hrun]. cbn [hhist_ok] in Hok. destruct Hok as [Ho Hr]. apply IH; [apply hstep_SecAll; assumption|exact Hr].
-Qed.
-
-(* whoever is answered is recognised now, and if the account is secure one of
-   its registered masks matches the hostmask *)
-Theorem secure_needs_mask_state t now s h id :
-  SecAll (s_users s) -> snd (getUserId t now s h) = Ok id ->
-  exists u, In (id, u) (s_users s) /\ recog t now u h = true /\ (u_secure u = true -> mask_match u h = true).
-Proof.
-  intros HS H. destruct (answer_recognised t now s h id H) as [u [Hin Hr]]. exists u. split; [exact Hin|]. split; [exact Hr|].
-  intro Hsec. unfold recog in Hr. apply orb_true_iff in Hr as [Hr|Hr]; [|exact Hr].
-  unfold live_auth in Hr. apply existsb_exists in Hr as [e [He Hx]]. apply andb_true_iff in Hx as [_ Hx].
-  apply seq_eqb_eq in Hx. subst h. exact (HS id u Hin Hsec e He).
-Qed.
-
-Theorem secure_needs_mask_on_domain t ops now h id :
-  hhist_ok t init ops -> snd (getUserId t now (hrun t init ops) h) = Ok id ->
+Theorem secure_needs_mask_after_history t ops now h id :
+  snd (getUserId t now (hrun t init ops) h) = Ok id ->
   exists u, In (id, u) (s_users (hrun t init ops)) /\ recog t now u h = true /\
             (u_secure u = true -> mask_match u h = true).
-Proof.
-  intros Hok. apply secure_needs_mask_state. apply hrun_SecAll; [exact SecAll_nil|exact Hok].
-Qed.
+Proof. apply secure_needs_mask_state. Qed.
 
-(* ---- outside the domain (finding F25) ---- *)
+(* ---- the old witness of F25: identify while the flag is off, then
+   `user set secure <password> True` from a matching hostmask; the login from
+   q!q@q is still in the account but no longer recognises anybody ---- *)
 Definition f25_ops : list (Z * hop) :=
   [(1000%Z, HApi ONew); (1000%Z, HApi (OSet 1 (User nU1 [hAB] [] false)));
    (1000%Z, HCmd orc_pw hQ (CIdentify nU1)); (1000%Z, HCmd orc_pw hAB (CSecure (Some true)))].
 
-Example f25_state :
+Example f25_repaired :
   s_users (hrun 0 init f25_ops) = [(1, User nU1 [hAB] [(1000%Z, hQ)] true)] /\
-  snd (getUserId 0 1000 (hrun 0 init f25_ops) hQ) = Ok 1 /\
-  mask_match (User nU1 [hAB] [(1000%Z, hQ)] true) hQ = false.
+  snd (getUserId 0 1000 (hrun 0 init f25_ops) hQ) = Raise KeyError /\
+  snd (getUserId 0 1000 (hrun 0 init f25_ops) hAB) = Ok 1.
 Proof. vm_compute. auto. Qed.
-
-Theorem secure_needs_mask_refuted :
-  exists t ops now h id,
-    ~ hhist_ok t init ops /\ snd (getUserId t now (hrun t init ops) h) = Ok id /\
-    forall u, In (id, u) (s_users (hrun t init ops)) -> u_secure u = true /\ mask_match u h = false.
-Proof.
-  exists 0%Z, f25_ops, 1000%Z, hQ, 1. destruct f25_state as [Hs [Hl Hm]]. split; [|split; [exact Hl|]].
-  - intro H. cbn [hhist_ok f25_ops] in H. destruct H as [_ [_ [_ [[_ Hsec] _]]]].
-    match type of Hsec with SecAll ?us =>
-      assert (E : us = [(1, User nU1 [hAB] [(1000%Z, hQ)] true)]) by (vm_compute; reflexivity); rewrite E in Hsec end.
-    specialize (Hsec 1 _ (or_introl eq_refl) eq_refl (1000%Z, hQ) (or_introl eq_refl)). cbn [snd] in Hsec. congruence.
-  - rewrite Hs. intros u [E|[]]. inversion E; subst. split; [reflexivity|exact Hm].
-Qed.
-
-(* non-vacuity: identify on a secure account from a matching hostmask, remove of an unused mask *)
-Definition sec_ok_ops : list (Z * hop) :=
-  [(1000%Z, HApi ONew); (1000%Z, HApi (OSet 1 (User nU1 [hAB; hZZ] [] true)));
-   (1000%Z, HCmd orc_pw hAB (CIdentify nU1)); (1000%Z, HCmd orc_pw hQ (CIdentify nU1));
-   (1001%Z, HCmd orc_pw hAB (CSecure (Some true))); (1002%Z, HApi (OLookup hAB))].
-
-Example sec_ok_in_domain :
-  hhist_ok 0 init sec_ok_ops /\ snd (getUserId 0 1003 (hrun 0 init sec_ok_ops) hAB) = Ok 1.
-Proof.
-  split; [|vm_compute; reflexivity].
-  cbn [hhist_ok sec_ok_ops hop_ok]. repeat split; try exact Logic.I; try (vm_compute; reflexivity).
-  - intros Hsec e []. 
-  - intros k u Hin. vm_compute in Hin. destruct Hin as [E|[]]. inversion E; subst.
-    intros _ e [He|[]]. subst e. vm_compute. reflexivity.
-Qed.
